@@ -17,7 +17,7 @@ import time
 from dataclasses import asdict, dataclass
 from typing import Any
 
-from harness import engine_suites, synth_suites
+from harness import dstatus_suite, engine_suites, synth_suites
 
 RULE = ("random workflows (1-5 stages, every join type, scripted task outcomes incl. polling / transient / jump / suspend) x "
         "delivery schedules (fifo | random order | random + redelivery of unacknowledged messages | arbitrary incl. early re-polls), "
@@ -38,7 +38,8 @@ RULE = ("random workflows (1-5 stages, every join type, scripted task outcomes i
         "suspends k in {1,2} times (script U^k S), optionally a sibling child and a child of the other kind; 0-3 persistent / transient signals for that child sent before its parent started, "
         "before the child started, while it runs, after it suspended, or only once nothing else is deliverable; fifo | random | redelivery | kill of the signal or of the suspending RunTask "
         "followed by restart + sweep + late redelivery; judged by mon_c18 (unchanged) and the transition-table monitor. "
-        "PLUS the pause / resume dimension (harness/synth_suites.py, family 'pause', IMPLEMENTATION-ONLY: monitors on real-engine traces, no model line; signatures prefixed pause:): plain workflows (engine_suites.gen_spec w0, sometimes one suspending task) AND synthetic-stage ones; operator ops p = store.pause (only while the workflow is RUNNING), u = Orchestrator.unpause, r = store.resume injected at random steps into fifo | random | redelivery | starve schedules, combined with a cancel (often issued together with the un-pause, or while paused), signals and a second pause; every third unit is the directed 'parked' member (2-3 parallel stages all parked PAUSED, then un-pause or cancel + un-pause, random order); in 20 % of the runs nobody un-pauses, otherwise the operator keeps at it until nothing is paused (settle_pause: unpause, drain, store.resume if the row is still PAUSED with nothing parked); the signal workloads (one suspending target: top-level stage or synthetic child; 1-3 persistent / transient signals before, WHILE and after the pause, preferably pausing once the target is suspended); judged by pmon_c18 = mon_c18, except that a target parked PAUSED in a run nobody un-paused is only judged on 'left SUSPENDED by something else'")
+        "PLUS the pause / resume dimension (harness/synth_suites.py, family 'pause', IMPLEMENTATION-ONLY: monitors on real-engine traces, no model line; signatures prefixed pause:): plain workflows (engine_suites.gen_spec w0, sometimes one suspending task) AND synthetic-stage ones; operator ops p = store.pause (only while the workflow is RUNNING), u = Orchestrator.unpause, r = store.resume injected at random steps into fifo | random | redelivery | starve schedules, combined with a cancel (often issued together with the un-pause, or while paused), signals and a second pause; every third unit is the directed 'parked' member (2-3 parallel stages all parked PAUSED, then un-pause or cancel + un-pause, random order); in 20 % of the runs nobody un-pauses, otherwise the operator keeps at it until nothing is paused (settle_pause: unpause, drain, store.resume if the row is still PAUSED with nothing parked); the signal workloads (one suspending target: top-level stage or synthetic child; 1-3 persistent / transient signals before, WHILE and after the pause, preferably pausing once the target is suspended); judged by pmon_c18 = mon_c18, except that a target parked PAUSED in a run nobody un-paused is only judged on 'left SUSPENDED by something else'"
+        " PLUS the stage-status rule in isolation (harness/dstatus_suite.py): the real StageExecution.determine_status() against the model's determineStatus on EVERY task-status list of length <= 3 (thorough: 4) over the 12 statuses x continuePipelineOnFailure x failPipeline x current status, plus random longer lists; oracle = theorem waiting_task_keeps_stage_waiting restated on the code (a SUSPENDED / PAUSED / BUFFERED task and no halted one => the rule answers a waiting status)")
 ASSUMPTIONS = ["delays are abstracted: budget-respecting schedules deliver a delayed message only when no immediate one is pending",
                "per-workflow circuit breaker disabled in the harness (volatile state outside the model)",
                "pause / resume dimension: 'un-paused' means the operator idiom of the repo's tests and demos (Orchestrator.unpause, then store.resume when the row is still PAUSED with nothing parked), repeated up to three times at quiescence; store.pause is only issued while the workflow row is RUNNING (store.pause() itself writes PAUSED over any status, also a final one: operator misuse, not generated); a message that raises on every delivery is dead-lettered after max_attempts deliveries (real check_and_move_expired) and the first such loss names the cause of what follows (`…@<msg>-dead-lettered:<exception>-while-workflow-<status>`)",
@@ -582,6 +583,8 @@ def run(ctx) -> None:
     synth_suites.run_for(ctx, "C18")
     # pause / resume dimension: signals handled while the workflow is PAUSED (implementation-only)
     synth_suites.run_for(ctx, "C18", family="pause")
+    # the stage-status rule alone (real determine_status vs the model, every short task list; theorem waiting_task_keeps_stage_waiting)
+    dstatus_suite.run_for(ctx, "C18")
     run_race(ctx)
 
 
@@ -621,6 +624,8 @@ def replay_race(sched: dict) -> dict:
 
 def replay(ctx, body) -> int:
     rp = body.get("replay") or body
+    if dstatus_suite.is_replay(body):
+        return dstatus_suite.replay(ctx, body, "C18")
     if synth_suites.is_synth_replay(body):
         return synth_suites.replay(ctx, body)
     if isinstance(rp, dict) and "modeb" in rp:
